@@ -48,6 +48,15 @@ pub fn handle(ctx: &mut TimerCtx, cmd: &str, req: &Value) -> Result<Value, Strin
             let fired = t.tick_timers(mem, c, None);
             Ok(project(t, mem, fired))
         }
+        // the firmware clears status bits directly in the internal memory (no runtime hooks involved)
+        "timer.ack" => {
+            let m = u(req, "mask")? as u8;
+            let t = ctx.t.as_mut().ok_or("no timer")?;
+            let mem = ctx.mem.as_mut().ok_or("no mem")?;
+            let isr = mem.read_internal_byte_silent(0xFC).unwrap_or(0);
+            mem.write_internal_byte(0xFC, isr & !m);
+            Ok(project(t, mem, (false, false)))
+        }
         "timer.reset" => {
             let c = u(req, "cycle")?;
             let t = ctx.t.as_mut().ok_or("no timer")?;
